@@ -479,8 +479,15 @@ class Norm:
             for a_, b_ in ((l, r), (r, l)):
                 if isinstance(a_, ast.Call) and ast.unparse(a_.func) == "np.count_nonzero" and len(a_.args) == 1 and not a_.keywords \
                         and isinstance(b_, ast.Constant) and b_.value == 0 and isinstance(op, (ast.Eq, ast.NotEq, ast.Gt)) and (a_ is l or not isinstance(op, ast.Gt)):
+                    x_ = a_.args[0]
+                    boolean = isinstance(x_, (ast.Compare, ast.BoolOp)) or (isinstance(x_, ast.UnaryOp) and isinstance(x_.op, (ast.Invert, ast.Not))) \
+                        or (isinstance(x_, ast.BinOp) and isinstance(x_.op, (ast.BitAnd, ast.BitOr))) \
+                        or (isinstance(x_, ast.Call) and ast.unparse(x_.func) in ("np.logical_not", "np.logical_and", "np.logical_or", "np.isnan", "np.isin", "np.isfinite", "np.isinf"))
+                    if boolean:      # no element of a boolean array is set:  not any(X)
+                        anyx = ast.Call(func=ast.Attribute(value=ast.Name(id="np", ctx=ast.Load()), attr="any", ctx=ast.Load()), args=[x_], keywords=[])
+                        return self.b(anyx, neg != isinstance(op, ast.Eq), integer)
                     allz = ast.Call(func=ast.Attribute(value=ast.Name(id="np", ctx=ast.Load()), attr="all", ctx=ast.Load()),
-                                    args=[ast.Compare(left=a_.args[0], ops=[ast.Eq()], comparators=[ast.Constant(value=0)])], keywords=[])
+                                    args=[ast.Compare(left=x_, ops=[ast.Eq()], comparators=[ast.Constant(value=0)])], keywords=[])
                     return self.b(allz, neg != (not isinstance(op, ast.Eq)), integer)
             if isinstance(op, (ast.In, ast.NotIn)):
                 n = isinstance(op, ast.NotIn) != neg
@@ -523,6 +530,20 @@ class Norm:
                         ax = self.key(k.value)
                 if ax is None and len(e.args) > pos:
                     ax = self.key(e.args[pos])
+                # explicit element-wise negations of an ORDER comparison: any(~C) == not all(C), all(~C) == not any(C) exactly
+                # (also for NaN), whereas flipping the comparison inside would not be
+                peeled, nneg = inner, 0
+                while True:
+                    if isinstance(peeled, ast.UnaryOp) and isinstance(peeled.op, (ast.Invert, ast.Not)):
+                        peeled, nneg = peeled.operand, nneg + 1
+                    elif isinstance(peeled, ast.Call) and ast.unparse(peeled.func) == "np.logical_not" and len(peeled.args) == 1:
+                        peeled, nneg = peeled.args[0], nneg + 1
+                    else:
+                        break
+                if nneg % 2 == 1 and not integer and isinstance(peeled, ast.Compare) and len(peeled.ops) == 1 and isinstance(peeled.ops[0], (ast.Lt, ast.LtE, ast.Gt, ast.GtE)):
+                    pc = self.b(peeled, False, integer)
+                    form = ("not", ("all", pc, ax)) if red == "any" else ("not", ("any", pc, ax))
+                    return negate(form) if neg else form
                 p = self.b(inner, False, integer)
                 # any(P) == not all(not P) is exact for equality tests and plain boolean arrays; for ORDER comparisons
                 # on floats `not (x < 0)` differs from `x >= 0` when x is NaN, so those keep a distinct ('any', ..) form
